@@ -8,7 +8,8 @@ import PhreeqcVerif.Model.Transport
 * the factors of `init_mix` are non-negative and bounded by `maxmix` (`cellLoop_nonneg`, `rawMix_bnd`), `nmix > 1.5·maxmix`
   (`nmixOf_gt`), hence convex weights with self weight > 1/3 (`weightsWith_convex`)
 * symmetric factors conserve the column inventory (`mixGo_sum`), equal lengths without flow give symmetric factors
-  (`cellLoop_sym`) -/
+  (`cellLoop_sym`, `cellLoop_sym_flow`)
+* a solute amount and the water mass mixed with the same weights keep their ratio in range (`mixGo_rel` … `runWith_rel`) -/
 namespace PhreeqcVerif.Transport
 
 
@@ -690,5 +691,108 @@ theorem dropLast_sum_add_getLast : ∀ (l : List Rat) (h : l ≠ []), l.dropLast
   have := List.dropLast_append_getLast h
   calc l.dropLast.sum + l.getLast h = (l.dropLast ++ [l.getLast h]).sum := by simp
     _ = l.sum := by rw [this]
+
+/-! ### concentrations: amount and water mass mixed in lockstep -/
+
+
+/-- amount `n` in water mass `w` has a concentration within `[lo, hi]` (stated without division) -/
+def Rel (lo hi : Rat) (n w : Rat) : Prop := lo * w ≤ n ∧ n ≤ hi * w
+
+theorem rel3 {lo hi a b c x y z wx wy wz : Rat} (ha : 0 ≤ a) (hb : 0 ≤ b) (hc : 0 ≤ c)
+    (hx : Rel lo hi x wx) (hy : Rel lo hi y wy) (hz : Rel lo hi z wz) :
+    Rel lo hi (a * x + b * y + c * z) (a * wx + b * wy + c * wz) := by
+  constructor
+  · have := mul_le_mul_of_nonneg_left hx.1 ha
+    have := mul_le_mul_of_nonneg_left hy.1 hb
+    have := mul_le_mul_of_nonneg_left hz.1 hc
+    nlinarith
+  · have := mul_le_mul_of_nonneg_left hx.2 ha
+    have := mul_le_mul_of_nonneg_left hy.2 hb
+    have := mul_le_mul_of_nonneg_left hz.2 hc
+    nlinarith
+
+theorem mixGo_rel {lo hi last lastW : Rat} (hl : Rel lo hi last lastW) :
+    ∀ (xs ys : List Rat) (prev pv : Rat) (ws : List (W Rat)), (∀ w ∈ ws, w.Convex) → Rel lo hi prev pv →
+      List.Forall₂ (Rel lo hi) xs ys → List.Forall₂ (Rel lo hi) (mixGo last prev xs ws) (mixGo lastW pv ys ws) := by
+  intro xs ys prev pv ws hw hp h
+  induction h generalizing prev pv ws with
+  | nil => simp [mixGo]
+  | @cons x y xs' ys' hxy hrest ih =>
+    cases ws with
+    | nil => simpa [mixGo] using List.Forall₂.cons hxy hrest
+    | cons w ws =>
+      simp only [mixGo]
+      refine List.Forall₂.cons ?_ (ih x y ws (fun w' hw' => hw w' (by simp [hw'])) hxy)
+      obtain ⟨h1, h2, h3, _⟩ := hw w (by simp)
+      have hn : Rel lo hi (xs'.headD last) (ys'.headD lastW) := by
+        cases hrest with
+        | nil => simpa using hl
+        | cons h _ => simpa using h
+      exact rel3 h1 h2 h3 hp hxy hn
+
+
+theorem forall2_dropLast {R : Rat → Rat → Prop} : ∀ {l1 l2 : List Rat}, List.Forall₂ R l1 l2 →
+    List.Forall₂ R l1.dropLast l2.dropLast := by
+  intro l1 l2 h
+  induction h with
+  | nil => simp
+  | @cons a b t1 t2 hab hrest ih =>
+    cases hrest with
+    | nil => simp
+    | @cons a' b' t1' t2' h' hr' =>
+      simp only [List.dropLast_cons_cons]
+      exact List.Forall₂.cons hab ih
+
+theorem forall2_snoc {R : Rat → Rat → Prop} {a b : Rat} (hab : R a b) : ∀ {l1 l2 : List Rat}, List.Forall₂ R l1 l2 →
+    List.Forall₂ R (l1 ++ [a]) (l2 ++ [b]) := by
+  intro l1 l2 h
+  induction h with
+  | nil => exact List.Forall₂.cons hab List.Forall₂.nil
+  | cons h _ ih => exact List.Forall₂.cons h ih
+
+/-- two columns (amount of a solute, water mass) whose cell-wise ratio lies in `[lo, hi]` -/
+def Col.RelW (lo hi : Rat) (n w : Col Rat) : Prop :=
+  Rel lo hi n.first w.first ∧ List.Forall₂ (Rel lo hi) n.cells w.cells ∧ Rel lo hi n.last w.last
+
+theorem mixStep_rel {lo hi : Rat} {ws : List (W Rat)} (hw : ∀ w ∈ ws, w.Convex) {n w : Col Rat}
+    (h : Col.RelW lo hi n w) : Col.RelW lo hi (mixStep ws n) (mixStep ws w) :=
+  ⟨h.1, mixGo_rel h.2.2 _ _ _ _ ws hw h.1 h.2.1, h.2.2⟩
+
+theorem shift_rel {lo hi : Rat} (f : Flow) {n w : Col Rat} (h : Col.RelW lo hi n w) :
+    Col.RelW lo hi (shift f n) (shift f w) := by
+  obtain ⟨nf, nc, nl⟩ := n
+  obtain ⟨wf, wc, wl⟩ := w
+  obtain ⟨h1, h2, h3⟩ := h
+  simp only at h1 h2 h3
+  cases f with
+  | forward => exact ⟨h1, forall2_dropLast (List.Forall₂.cons h1 h2), h3⟩
+  | back =>
+    refine ⟨h1, ?_, h3⟩
+    simp only [shift, shiftB]
+    cases h2 with
+    | nil => exact List.Forall₂.nil
+    | cons _ hr => exact forall2_snoc h3 hr
+  | none => exact ⟨h1, h2, h3⟩
+
+theorem iter_rel {lo hi : Rat} {f : Col Rat → Col Rat} (hf : ∀ n w, Col.RelW lo hi n w → Col.RelW lo hi (f n) (f w)) :
+    ∀ (k : Nat) (n w : Col Rat), Col.RelW lo hi n w → Col.RelW lo hi (iter f k n) (iter f k w) := by
+  intro k
+  induction k with
+  | zero => intro n w h; exact h
+  | succ k ih => intro n w h; exact ih _ _ (hf n w h)
+
+theorem transportStepWith_rel {lo hi : Rat} {ws : List (W Rat)} (hw : ∀ w ∈ ws, w.Convex) (nmix pre : Nat) (f : Flow)
+    {n w : Col Rat} (h : Col.RelW lo hi n w) :
+    Col.RelW lo hi (transportStepWith ws nmix pre f n) (transportStepWith ws nmix pre f w) := by
+  unfold transportStepWith
+  exact iter_rel (fun _ _ h => mixStep_rel hw h) _ _ _ (shift_rel f (iter_rel (fun _ _ h => mixStep_rel hw h) _ _ _ h))
+
+theorem runWith_rel {lo hi : Rat} {f : Col Rat → Col Rat} (hf : ∀ n w, Col.RelW lo hi n w → Col.RelW lo hi (f n) (f w)) :
+    ∀ (k : Nat) (n w : Col Rat), Col.RelW lo hi n w → List.Forall₂ (Col.RelW lo hi) (runWith f k n) (runWith f k w) := by
+  intro k
+  induction k with
+  | zero => intro n w _; exact List.Forall₂.nil
+  | succ k ih => intro n w h; exact List.Forall₂.cons (hf n w h) (ih _ _ (hf n w h))
+
 
 end PhreeqcVerif.Transport
